@@ -201,41 +201,58 @@ Record change := {
   c_old : option (option sval);   (* None: OldValue == nil; Some o: the typed old value *)
   c_new : value
 }.
+(* Configuration objects have identity: every *config.Config the manager holds (running, startup, the
+   candidate of each session) is a slot (object id, contents).  deepCopyConfig allocates a fresh id; an
+   assignment of pointers copies the id; a write through one pointer (Set on a candidate) is a write to
+   every slot that carries the same id.  Sharing is therefore a property of the state. *)
+Definition oid := N.
 Record session := {
   s_id : N;
   s_cand : store;
+  s_oid : oid;             (* identity of sess.config *)
   s_changes : list change;
-  s_idle : N;              (* whole minutes since lastActivity *)
-  s_alias : bool           (* sess.config and runningConfig are the same Go object *)
+  s_idle : N               (* whole minutes since lastActivity *)
 }.
 Record vrec := { v_num : N; v_changes : list (bool * path) }.   (* true = add, false = modify *)
 Record state := {
   running : store;
+  running_oid : oid;
   startup : store;
+  startup_oid : oid;
   sfile : option store;             (* the startup file; None = absent *)
+  frr : option store;               (* configuration the routing daemon was last loaded with; None = as booted *)
   sessions : list session;
   lock : option N;
   next_id : N;
+  next_oid : oid;                   (* allocation counter of deepCopyConfig *)
   vmem : list vrec;                 (* cd.versions *)
   vfiles : list vrec                (* version files on disk *)
 }.
-Definition init_state (r : store) : state :=
-  {| running := r; startup := r; sfile := None; sessions := []; lock := None; next_id := 0;
+(* NewConfigManager: two distinct empty objects.  [shared]: ApplyLoadedConfig publishes the very object
+   it keeps as startupConfig (running and startup are one object until the first commit). *)
+Definition init_state_gen (r : store) (shared : bool) : state :=
+  {| running := r; running_oid := 1%N; startup := r; startup_oid := if shared then 1%N else 2%N;
+     sfile := None; frr := None; sessions := []; lock := None; next_id := 0; next_oid := 2%N;
      vmem := []; vfiles := [] |}.
+Definition init_state (r : store) : state := init_state_gen r false.
 
-(* which of the two recorded defects of the current code are repaired *)
+(* which of the recorded defects are repaired *)
 Record variant := {
-  v_persist_first : bool;   (* Commit writes the startup file before it swaps running (fixes/C13_persist_before_swap) *)
-  v_set_atomic : bool       (* a Set that fails in convertValue leaves the candidate untouched *)
+  v_persist_first : bool;   (* Commit writes the startup file before it swaps running (fixed in /repo 1761ed1) *)
+  v_set_atomic : bool;      (* a Set that fails in convertValue leaves the candidate untouched (fixed in 61c97e1) *)
+  v_frr_restore : bool      (* a failed routing-daemon reload is followed by a reload of the running config *)
 }.
-Definition Repaired : variant := {| v_persist_first := true; v_set_atomic := true |}.
-Definition Defective : variant := {| v_persist_first := false; v_set_atomic := false |}.      (* the code today *)
-Definition PersistDefect : variant := {| v_persist_first := false; v_set_atomic := true |}.
-Definition SetDefect : variant := {| v_persist_first := true; v_set_atomic := false |}.
+Definition Repaired : variant := {| v_persist_first := true; v_set_atomic := true; v_frr_restore := true |}.
+Definition FrrDefect : variant := {| v_persist_first := true; v_set_atomic := true; v_frr_restore := false |}.
+Definition Defective : variant := {| v_persist_first := false; v_set_atomic := false; v_frr_restore := false |}.
+Definition PersistDefect : variant := {| v_persist_first := false; v_set_atomic := true; v_frr_restore := true |}.
+Definition SetDefect : variant := {| v_persist_first := true; v_set_atomic := false; v_frr_restore := true |}.
 
-Record faults := { f_apply : nat; f_test : bool; f_reload : bool; f_startup : bool; f_version : bool }.
+(* fault oracle of one Commit.  f_reload: 0 = the reload succeeds, 1 = it fails before it changed the daemon,
+   2 = it fails after the daemon has taken the candidate (frr-reload.py applies line by line) *)
+Record faults := { f_apply : nat; f_rollback : nat; f_test : bool; f_reload : nat; f_startup : bool; f_version : bool }.
 Definition no_faults : faults :=
-  {| f_apply := 0; f_test := false; f_reload := false; f_startup := false; f_version := false |}.
+  {| f_apply := 0; f_rollback := 0; f_test := false; f_reload := 0; f_startup := false; f_version := false |}.
 
 Inductive op :=
 | OCreate | OClose (id : N) | ODelete (id : N)
@@ -247,21 +264,26 @@ Inductive res :=
 | RDepErr | RNoChanges | RPrecommit | RApplyFail | RFrrTest | RFrrReload | RStartupSave | RVersionSave
 | RBadVersion | RBadVerType | RNotImpl | RModelFuel.
 
+(* the recorded call stream: handler Apply / Rollback calls with their outcome, routing-daemon calls *)
 Inductive ev :=
-| EApply (p : path) (v : value) (ok : bool) | ERollback (p : path) (v : value) | EFrrTest | EFrrReload.
+| EApply (p : path) (v : value) (ok : bool) | ERollback (p : path) (v : value) (ok : bool) | EFrrTest | EFrrReload.
 
 Definition idle_limit : N := 15.
+
+Definition set_sessions (st : state) (l : list session) (lk : option N) : state :=
+  {| running := running st; running_oid := running_oid st; startup := startup st; startup_oid := startup_oid st;
+     sfile := sfile st; frr := frr st; sessions := l; lock := lk; next_id := next_id st; next_oid := next_oid st;
+     vmem := vmem st; vfiles := vfiles st |}.
+Definition with_sessions := set_sessions.
 
 (* expireIdleSessionsUnlocked *)
 Definition alive (s : session) : bool := (s_idle s <? idle_limit)%N.
 Definition has_session (l : list session) (id : N) : bool := existsb (fun s => N.eqb (s_id s) id) l.
 Definition expire (st : state) : state :=
-  let keep := filter alive (sessions st) in
-  {| running := running st; startup := startup st; sfile := sfile st; sessions := keep;
-     lock := match lock st with
-             | Some o => if has_session (filter (fun s => negb (alive s)) (sessions st)) o then None else Some o
-             | None => None end;
-     next_id := next_id st; vmem := vmem st; vfiles := vfiles st |}.
+  set_sessions st (filter alive (sessions st))
+    (match lock st with
+     | Some o => if has_session (filter (fun s => negb (alive s)) (sessions st)) o then None else Some o
+     | None => None end).
 
 Definition find_session (l : list session) (id : N) : option session :=
   find (fun s => N.eqb (s_id s) id) l.
@@ -271,12 +293,18 @@ Definition put_session (l : list session) (s' : session) : list session :=
   map (fun s => if N.eqb (s_id s) (s_id s') then s' else s) l.
 Definition release (lk : option N) (id : N) : option N :=
   match lk with Some o => if N.eqb o id then None else Some o | None => None end.
-
-Definition with_sessions (st : state) (l : list session) (lk : option N) : state :=
-  {| running := running st; startup := startup st; sfile := sfile st; sessions := l; lock := lk;
-     next_id := next_id st; vmem := vmem st; vfiles := vfiles st |}.
 Definition touch (s : session) : session :=
-  {| s_id := s_id s; s_cand := s_cand s; s_changes := s_changes s; s_idle := 0; s_alias := s_alias s |}.
+  {| s_id := s_id s; s_cand := s_cand s; s_oid := s_oid s; s_changes := s_changes s; s_idle := 0 |}.
+
+(* a write to the configuration object [o]: every slot holding that object sees it *)
+Definition write_obj (st : state) (o : oid) (c : store) : state :=
+  {| running := if N.eqb (running_oid st) o then c else running st; running_oid := running_oid st;
+     startup := if N.eqb (startup_oid st) o then c else startup st; startup_oid := startup_oid st;
+     sfile := sfile st; frr := frr st;
+     sessions := map (fun s => if N.eqb (s_oid s) o
+                               then {| s_id := s_id s; s_cand := c; s_oid := s_oid s; s_changes := s_changes s; s_idle := s_idle s |}
+                               else s) (sessions st);
+     lock := lock st; next_id := next_id st; next_oid := next_oid st; vmem := vmem st; vfiles := vfiles st |}.
 
 (* ---------- getValueFromConfig (non-nil?) and OldValue ---------- *)
 Definition exists_in (s : store) (h : hspec) (p : path) : bool :=
@@ -315,21 +343,19 @@ Definition do_set (var : variant) (reg : registry) (st0 : state) (id : N) (p : p
   | None => (st, RNoSession)
   | Some s0 =>
     let s := touch s0 in
-    let st1 := with_sessions st (put_session (sessions st) s) (lock st) in
+    let st1 := set_sessions st (put_session (sessions st) s) (lock st) in
     match get_handler reg p with
     | None => (st1, RNoHandler)
     | Some hi =>
       let h := hget reg hi in
       if vfail then (st1, RInvalid) else
       let '(cand', ok) := set_store var (s_cand s) h p v in
-      let s' := {| s_id := s_id s; s_cand := cand';
+      let s' := {| s_id := s_id s; s_cand := s_cand s; s_oid := s_oid s;
                    s_changes := if ok then s_changes s ++ [{| c_path := p; c_old := old_value (s_cand s) h p; c_new := v |}]
                                 else s_changes s;
-                   s_idle := 0; s_alias := s_alias s |} in
-      ({| running := if s_alias s then cand' else running st;
-          startup := startup st; sfile := sfile st;
-          sessions := put_session (sessions st) s'; lock := lock st; next_id := next_id st;
-          vmem := vmem st; vfiles := vfiles st |},
+                   s_idle := 0 |} in
+      (* setValueInConfig writes through sess.config *)
+      (write_obj (set_sessions st (put_session (sessions st) s') (lock st)) (s_oid s) cand',
        if ok then ROk else RSetFail)
     end
   end.
@@ -446,20 +472,37 @@ Definition sort_changes (reg : registry) (run : store) (chs : list change) : sum
     end
   end.
 
-(* ---------- the apply loop, rollback and the routing daemon ---------- *)
-(* returns (applied changes in order, failed?, events, reload needed) *)
+(* ---------- the apply loop, rollbackChanges and the routing daemon ---------- *)
+Definition dflt_change : change := {| c_path := []; c_old := None; c_new := VBool false |}.
+(* the apply loop of Commit: handler lookup, ApplyWithCallbacks (k-th call fails), reload mark.
+   returns (applied changes in order, outcome 0 = all applied / 1 = Apply failed / 2 = no handler, events, reload needed) *)
 Fixpoint apply_loop (reg : registry) (chs : list change) (n : nat) (kfail : nat)
-         (applied : list change) (evs : list ev) (frr : bool) : list change * bool * list ev * bool :=
+         (applied : list change) (evs : list ev) (frr : bool) : list change * nat * list ev * bool :=
   match chs with
-  | [] => (applied, false, evs, frr)
+  | [] => (applied, 0%nat, evs, frr)
   | c :: rest =>
-    if Nat.eqb (S n) kfail then (applied, true, evs ++ [EApply (c_path c) (c_new c) false], frr)
-    else
-      let mark := match get_handler reg (c_path c) with Some hi => h_frr (hget reg hi) | None => false end in
-      apply_loop reg rest (S n) kfail (applied ++ [c]) (evs ++ [EApply (c_path c) (c_new c) true]) (frr || mark)
+    match get_handler reg (c_path c) with
+    | None => (applied, 2%nat, evs, frr)
+    | Some hi =>
+      if Nat.eqb (S n) kfail then (applied, 1%nat, evs ++ [EApply (c_path c) (c_new c) false], frr)
+      else apply_loop reg rest (S n) kfail (applied ++ [c]) (evs ++ [EApply (c_path c) (c_new c) true])
+                      (frr || h_frr (hget reg hi))
+    end
   end.
-Definition rollback_evs (applied : list change) : list ev :=
-  map (fun c => ERollback (c_path c) (c_new c)) (rev applied).
+(* rollbackChanges: for i := len(changes)-1; i >= 0; i-- { handler lookup (continue on error); handler.Rollback }
+   — the error a Rollback returns is dropped and the loop goes on.  [n] counts Rollback calls, the k-th fails. *)
+Fixpoint rollback_loop (reg : registry) (chs : list change) (i : nat) (n : nat) (kfail : nat) : list ev :=
+  match i with
+  | O => []
+  | S j =>
+    let c := nth j chs dflt_change in
+    match get_handler reg (c_path c) with
+    | None => rollback_loop reg chs j n kfail
+    | Some _ => ERollback (c_path c) (c_new c) (negb (Nat.eqb (S n) kfail)) :: rollback_loop reg chs j (S n) kfail
+    end
+  end.
+Definition rollback_evs (reg : registry) (applied : list change) (kfail : nat) : list ev :=
+  rollback_loop reg applied (length applied) 0 kfail.
 
 (* ---------- FormatChanges ---------- *)
 Definition diff_class (reg : registry) (c : change) : option bool :=     (* Some true = add, Some false = modify, None = no-op *)
@@ -483,11 +526,25 @@ Fixpoint diff_lines (reg : registry) (chs : list change) (want : bool) : list (b
 Definition version_changes (reg : registry) (chs : list change) : list (bool * path) :=
   diff_lines reg chs true ++ diff_lines reg chs false.
 
-(* ---------- pre-commit validation (ValidateMSSClampParentMTU for one PPPoE group) ---------- *)
-(* guard = (interfaces.<parent>, interfaces.<parent>.mtu, required MTU) *)
-Definition guard := option (path * path * Z).
-Definition precommit_ok (g : guard) (cand : store) : bool :=
-  match g with
+
+(* ---------- pre-commit validation ---------- *)
+(* What the validators of conf.go:271-282 read from the candidate, for the generated configurations:
+   g_mss     ValidateMSSClampParentMTU for one PPPoE group: (interfaces.<parent>, interfaces.<parent>.mtu, required)
+   g_sv/g_cv ValidateMatchIndex: two vlan entries of subscriber groups claim the same (svlan, cvlan)
+             (entries are the containers that carry an svlan leaf; single-number svlans and "any"/number
+             cvlans only, so equal claims are equal leaves — ranges and parsing are C14's subject)
+   g_hidden  segments of fields that are not serialised (json:"-"): dropped from the startup file
+   g_sa      the SubscriberAccess flag: scrubPersistedConfig drops such subinterfaces from the file *)
+Record guard := {
+  g_mss : option (path * path * Z);
+  g_sv : seg; g_cv : seg;
+  g_hidden : list seg;
+  g_sa : seg
+}.
+Definition no_guard : guard := {| g_mss := None; g_sv := WILD; g_cv := WILD; g_hidden := []; g_sa := WILD |}.
+
+Definition mss_ok (g : guard) (cand : store) : bool :=
+  match g_mss g with
   | None => true
   | Some (cp, mp, req) =>
     has_cont cand cp &&
@@ -495,6 +552,37 @@ Definition precommit_ok (g : guard) (cand : store) : bool :=
      let m16 := if (m =? 0)%Z then 1500%Z else (m mod 65536)%Z in      (* uint16(parent.MTU) *)
      (req <=? m16)%Z)
   end.
+Definition claims (g : guard) (cand : store) : list (option sval * option sval) :=
+  flat_map (fun c => match get_leaf cand (c ++ [g_sv g]) with
+                     | Some sv => [(Some sv, get_leaf cand (c ++ [g_cv g]))]
+                     | None => [] end) (conts cand).
+Definition claim_eqb (a b : option sval * option sval) : bool :=
+  osval_eqb (fst a) (fst b) && osval_eqb (snd a) (snd b).
+Fixpoint has_dup (l : list (option sval * option sval)) : bool :=
+  match l with
+  | [] => false
+  | x :: r => existsb (claim_eqb x) r || has_dup r
+  end.
+Definition precommit_ok (g : guard) (cand : store) : bool :=
+  mss_ok g cand && negb (has_dup (claims g cand)).
+
+(* ---------- what SaveYAML(scrubPersistedConfig(cfg)) leaves in the startup file ---------- *)
+Fixpoint is_prefix_b (c p : path) : bool :=
+  match c, p with
+  | [], _ => true
+  | x :: c', y :: p' => N.eqb x y && is_prefix_b c' p'
+  | _, _ => false
+  end.
+Definition hidden_path (g : guard) (p : path) : bool := existsb (fun x => existsb (N.eqb x) (g_hidden g)) p.
+Definition scrub (g : guard) (s : store) : store :=
+  let dropped := filter (fun c => match get_leaf s (c ++ [g_sa g]) with Some (SBool true) => true | _ => false end) (conts s) in
+  let keep p := negb (hidden_path g p) && negb (existsb (fun c => is_prefix_b c p) dropped) in
+  {| leaves := filter (fun e => keep (fst e)) (leaves s); conts := filter keep (conts s) |}.
+
+Definition set_frr (x : state) (d : option store) : state :=
+  {| running := running x; running_oid := running_oid x; startup := startup x; startup_oid := startup_oid x;
+     sfile := sfile x; frr := d; sessions := sessions x; lock := lock x; next_id := next_id x;
+     next_oid := next_oid x; vmem := vmem x; vfiles := vfiles x |}.
 
 (* ---------- Commit ---------- *)
 Definition do_commit (var : variant) (reg : registry) (g : guard) (st0 : state) (id : N) (f : faults)
@@ -504,7 +592,7 @@ Definition do_commit (var : variant) (reg : registry) (g : guard) (st0 : state) 
   | None => (st, RNoSession, [])
   | Some s0 =>
     let s := touch s0 in
-    let st1 := with_sessions st (put_session (sessions st) s) (lock st) in
+    let st1 := set_sessions st (put_session (sessions st) s) (lock st) in
     match sort_changes reg (running st) (s_changes s) with
     | inl SENoHandler => (st1, RDepErr, [])
     | inl SEDepMissing => (st1, RDepMissing, [])
@@ -513,51 +601,58 @@ Definition do_commit (var : variant) (reg : registry) (g : guard) (st0 : state) 
     | inr [] => (st1, RNoChanges, [])
     | inr sorted =>
       if negb (precommit_ok g (s_cand s)) then (st1, RPrecommit, []) else
-      let '(applied, failed, evs, frr) := apply_loop reg sorted 0 (f_apply f) [] [] false in
-      if failed then (st1, RApplyFail, evs ++ rollback_evs applied) else
-      if frr && f_test f then (st1, RFrrTest, evs ++ [EFrrTest] ++ rollback_evs applied) else
-      if frr && f_reload f then (st1, RFrrReload, evs ++ [EFrrTest; EFrrReload] ++ rollback_evs applied) else
-      let evs1 := if frr then evs ++ [EFrrTest; EFrrReload] else evs in
+      let '(applied, outcome, evs, need) := apply_loop reg sorted 0 (f_apply f) [] [] false in
+      let rb := rollback_evs reg applied (f_rollback f) in
+      let with_frr := set_frr in
+      match outcome with
+      | 2%nat => (st1, RNoHandler, evs ++ rb)
+      | 1%nat => (st1, RApplyFail, evs ++ rb)
+      | _ =>
+      if need && f_test f then (st1, RFrrTest, evs ++ [EFrrTest] ++ rb) else
       let cand := s_cand s in
+      if need && negb (Nat.eqb (f_reload f) 0) then
+        (* reloadFRR(sess.config) failed; f_reload = 2: the daemon has taken the candidate nevertheless *)
+        let d1 := if Nat.eqb (f_reload f) 2 then Some cand else frr st in
+        if v_frr_restore var
+        then (with_frr st1 (Some (running st)), RFrrReload, evs ++ [EFrrTest; EFrrReload; EFrrReload] ++ rb)
+        else (with_frr st1 d1, RFrrReload, evs ++ [EFrrTest; EFrrReload] ++ rb)
+      else
+      let evs1 := if need then evs ++ [EFrrTest; EFrrReload] else evs in
+      let d_ok := if need then Some cand else frr st in
       let lines := version_changes reg (s_changes s) in
       let ver := {| v_num := N.of_nat (S (length (vmem st))); v_changes := lines |} in
       let closed := remove_session (sessions st) id in
       let lk := release (lock st) id in
+      let fresh := (next_oid st + 1)%N in
+      (* the committed state: running IS the session's object, startup a fresh copy of it *)
+      let committed (ss : list session) (l : option N) (file : option store) (vm vf : list vrec) : state :=
+        {| running := cand; running_oid := s_oid s; startup := cand; startup_oid := fresh; sfile := file;
+           frr := d_ok; sessions := ss; lock := l; next_id := next_id st; next_oid := fresh; vmem := vm; vfiles := vf |} in
       if negb (v_persist_first var) then
-        (* conf.go today: swap first, then persist *)
+        (* before 1761ed1: swap first, then persist; on a failed write the session stays open *)
         if f_startup f then
-          ({| running := cand; startup := cand; sfile := sfile st;
-              sessions := put_session (sessions st)
-                            {| s_id := s_id s; s_cand := cand; s_changes := s_changes s; s_idle := 0; s_alias := true |};
-              lock := lock st; next_id := next_id st; vmem := vmem st; vfiles := vfiles st |},
-           RStartupSave, evs1)
+          (committed (put_session (sessions st) s) (lock st) (sfile st) (vmem st) (vfiles st), RStartupSave, evs1)
         else
           match lines with
-          | [] => ({| running := cand; startup := cand; sfile := Some cand; sessions := closed; lock := lk;
-                      next_id := next_id st; vmem := vmem st; vfiles := vfiles st |}, ROk, evs1)
+          | [] => (committed closed lk (Some (scrub g cand)) (vmem st) (vfiles st), ROk, evs1)
           | _ =>
-            if f_version f then
-              ({| running := cand; startup := cand; sfile := Some cand; sessions := closed; lock := lk;
-                  next_id := next_id st; vmem := vmem st ++ [ver]; vfiles := vfiles st |}, RVersionSave, evs1)
-            else
-              ({| running := cand; startup := cand; sfile := Some cand; sessions := closed; lock := lk;
-                  next_id := next_id st; vmem := vmem st ++ [ver]; vfiles := vfiles st ++ [ver] |}, ROk, evs1)
+            if f_version f
+            then (committed closed lk (Some (scrub g cand)) (vmem st ++ [ver]) (vfiles st), RVersionSave, evs1)
+            else (committed closed lk (Some (scrub g cand)) (vmem st ++ [ver]) (vfiles st ++ [ver]), ROk, evs1)
           end
       else
-        (* fixes/C13_persist_before_swap.patch: persist first; a failed startup write restores the
-           routing daemon, rolls the handlers back and leaves every datastore alone; a failed version
-           write is logged and does not fail the commit *)
+        (* persist first; a failed startup write puts the daemon back on running, rolls the handlers back
+           and leaves every datastore alone; a failed version write is logged *)
         if f_startup f then
-          (st1, RStartupSave, (if frr then evs1 ++ [EFrrReload] else evs1) ++ rollback_evs applied)
+          (with_frr st1 (if need then Some (running st) else frr st), RStartupSave,
+           (if need then evs1 ++ [EFrrReload] else evs1) ++ rb)
         else
           match lines with
-          | [] => ({| running := cand; startup := cand; sfile := Some cand; sessions := closed; lock := lk;
-                      next_id := next_id st; vmem := vmem st; vfiles := vfiles st |}, ROk, evs1)
-          | _ =>
-            ({| running := cand; startup := cand; sfile := Some cand; sessions := closed; lock := lk;
-                next_id := next_id st; vmem := vmem st ++ [ver];
-                vfiles := if f_version f then vfiles st else vfiles st ++ [ver] |}, ROk, evs1)
+          | [] => (committed closed lk (Some (scrub g cand)) (vmem st) (vfiles st), ROk, evs1)
+          | _ => (committed closed lk (Some (scrub g cand)) (vmem st ++ [ver])
+                            (if f_version f then vfiles st else vfiles st ++ [ver]), ROk, evs1)
           end
+      end
     end
   end.
 
@@ -568,31 +663,35 @@ Definition do_create (st0 : state) : state * res :=
   | Some _ => (st, RLocked)
   | None =>
     let id := (next_id st + 1)%N in
-    ({| running := running st; startup := startup st; sfile := sfile st;
-        sessions := sessions st ++ [{| s_id := id; s_cand := running st; s_changes := []; s_idle := 0; s_alias := false |}];
-        lock := Some id; next_id := id; vmem := vmem st; vfiles := vfiles st |}, RId id)
+    let o := (next_oid st + 1)%N in                      (* deepCopyConfig(runningConfig) *)
+    ({| running := running st; running_oid := running_oid st; startup := startup st; startup_oid := startup_oid st;
+        sfile := sfile st; frr := frr st;
+        sessions := sessions st ++ [{| s_id := id; s_cand := running st; s_oid := o; s_changes := []; s_idle := 0 |}];
+        lock := Some id; next_id := id; next_oid := o; vmem := vmem st; vfiles := vfiles st |}, RId id)
   end.
 Definition do_close (st0 : state) (id : N) : state * res :=
   let st := expire st0 in
   if has_session (sessions st) id
-  then (with_sessions st (remove_session (sessions st) id) (release (lock st) id), ROk)
+  then (set_sessions st (remove_session (sessions st) id) (release (lock st) id), ROk)
   else (st, RNoSession).
 Definition do_delete (st0 : state) (id : N) : state * res :=
   let st := expire st0 in
   match find_session (sessions st) id with
   | None => (st, RNoSession)
-  | Some s => (with_sessions st (put_session (sessions st) (touch s)) (lock st), RNotImpl)
+  | Some s => (set_sessions st (put_session (sessions st) (touch s)) (lock st), RNotImpl)
   end.
 Definition do_tick (st : state) (d : N) : state :=
-  with_sessions st (map (fun s => {| s_id := s_id s; s_cand := s_cand s; s_changes := s_changes s;
-                                     s_idle := (s_idle s + d)%N; s_alias := s_alias s |}) (sessions st)) (lock st).
-(* Rollback(toVersion): version records never carry a configuration, so after creating its session the
-   call always ends in "invalid config type"; the session counter has moved *)
+  set_sessions st (map (fun s => {| s_id := s_id s; s_cand := s_cand s; s_oid := s_oid s; s_changes := s_changes s;
+                                    s_idle := (s_idle s + d)%N |}) (sessions st)) (lock st).
+(* Rollback(toVersion): version records never carry a configuration, so after creating its session (a deep
+   copy of running) the call always ends in "invalid config type"; the session counter has moved *)
 Definition do_rollback (st0 : state) (ver : N) : state * res :=
   let st := expire st0 in
   if (ver =? 0)%N || (N.of_nat (length (vmem st)) <? ver)%N then (st, RBadVersion)
-  else ({| running := running st; startup := startup st; sfile := sfile st; sessions := sessions st;
-           lock := lock st; next_id := (next_id st + 1)%N; vmem := vmem st; vfiles := vfiles st |}, RBadVerType).
+  else ({| running := running st; running_oid := running_oid st; startup := startup st; startup_oid := startup_oid st;
+           sfile := sfile st; frr := frr st; sessions := sessions st; lock := lock st;
+           next_id := (next_id st + 1)%N; next_oid := (next_oid st + 1)%N; vmem := vmem st; vfiles := vfiles st |},
+        RBadVerType).
 
 Definition step (var : variant) (reg : registry) (g : guard) (st : state) (o : op) : state * res * list ev :=
   match o with
